@@ -70,6 +70,7 @@ fn exec(w: &C09World, op: u8, no_shortcut: bool, no_early: bool, with_handler: b
     let h = simhooks::handler();
     h.events.set(0);
     h.ticks.set(0);
+    h.connect_steps.set(0);
     h.cancel_at.set(0);
     h.budget.set(simhooks::event_budget(geom::edge_count(&w.a) + geom::edge_count(&w.b)));
     h.no_shortcut.set(no_shortcut);
